@@ -416,6 +416,7 @@ def run(tier, seed, replay=None):
             "the processor is a recording rule.SetProcessor that refuses content marked 'bad' or everything while told "
             "to refuse",
         ]
+        scheduled_polls(work, verdict)
         # composition part (spec/Heimdall*.tla): the watcher / scheduler goroutines of the file_system and
         # http_endpoint providers in an assembled service; E3 (convergence) is reported here
         import e2e
@@ -423,6 +424,54 @@ def run(tier, seed, replay=None):
         return verdict.finish()
     finally:
         work.close()
+
+
+def run_sched(work, tag):
+    """The cloud_blob provider with its own scheduler against a bucket whose poll outlasts watch_interval."""
+    out = work.path("sched_%s.ndjson" % tag)
+    cmd = ["go", "test", "-tags", "verif", "-vet=off", "-count=1", "-overlay", overlay_file(work),
+           "-run", "^TestVerifC18Scheduler$", "-timeout", "120s", "./" + PKG["pollN"][0]]
+    e = verif.goenv()
+    e.update({"VERIF_WORK": verif.WORKROOT, "VERIF_C18_SCHED": out})
+    p = subprocess.run(cmd, cwd=verif.REPO, env=e, capture_output=True, text=True, timeout=300)
+    if p.returncode != 0 or not os.path.exists(out):
+        raise Infra("C18 scheduler scenario failed (rc=%d):\n%s" % (p.returncode, (p.stdout + p.stderr)[-3000:]))
+    return out
+
+
+def judge_sched(work, tf, tag):
+    out = work.path("verdict_sched_%s.json" % tag)
+    r = tlc(work, "ProviderSchedTrace", "ProviderSchedTrace.cfg", env={"VERIF_TRACE": tf, "VERIF_OUT": out},
+            workers=1, timeout=300)
+    if not r.ok or not os.path.exists(out):
+        raise Infra("ProviderSchedTrace failed:\n" + r.out[-2000:])
+    return json.load(open(out))
+
+
+def scheduled_polls(work, verdict):
+    tf = run_sched(work, "main")
+    v = judge_sched(work, tf, "main")
+    ev = read_ndjson(tf)
+    verdict.coverage["scheduled_polls"] = {"scenarios": ev, "rejected": len(v["bad"])}
+    if not v["bad"]:
+        return
+    reasons = {r for b in v["bad"] for r in b["reasons"]}
+    # timing decides here: a rejection counts when the same comparison fails in two further executions
+    for n in range(2):
+        tf2 = run_sched(work, "r%d" % n)
+        again = {r for b in judge_sched(work, tf2, "r%d" % n)["bad"] for r in b["reasons"]}
+        reasons &= again
+        if not reasons:
+            log("scheduler scenario: rejection not reproduced (%s)" % json.dumps(ev))
+            verdict.coverage["scheduled_polls"]["unreproduced"] = True
+            return
+    known = load_known(PROP)
+    facts = {"kind": "sched", "prov": "cloudblob", "r": ",".join(sorted(reasons))}
+    k = match_known(known, facts)
+    if k:
+        verdict.known_finding(k)
+    else:
+        verdict.violation(save_replay(PROP, "sched-cloudblob", ev), "%s %s" % (facts["r"], json.dumps(facts, sort_keys=True)))
 
 
 def do_replay(work, replay, seed):
